@@ -7,6 +7,7 @@ import (
 
 	"github.com/iotaledger/iota.go/consts"
 	"github.com/iotaledger/iota.go/curl"
+	"github.com/iotaledger/iota.go/encoding/b1t6"
 	"github.com/iotaledger/iota.go/trinary"
 	refb1t6 "github.com/wollac/iota-crypto-demo/pkg/encoding/b1t6"
 )
@@ -69,9 +70,20 @@ func VerifC11Score(n int) {
 	h.Write(msg[:n-8])
 	digest := h.Sum(nil)
 	buf := make(trinary.Trits, consts.HashTrinarySize)
-	k := refb1t6.Encode(buf, digest)
+	k := b1t6.Encode(buf, digest)
 	verifAssert("digest.trits", k == 192)
-	refb1t6.Encode(buf[k:], msg[n-8:]) // the little-endian nonce bytes are the last 8 message bytes
+	b1t6.Encode(buf[k:], msg[n-8:]) // the little-endian nonce bytes are the last 8 message bytes
+	// the dependency's b1t6 encoder agrees with the repository's own (property C14)
+	cmp := make(trinary.Trits, consts.HashTrinarySize)
+	refb1t6.Encode(cmp, digest)
+	refb1t6.Encode(cmp[192:], msg[n-8:])
+	same := true
+	for i := range buf {
+		if buf[i] != cmp[i] {
+			same = false
+		}
+	}
+	verifAssert("b1t6.same.as.repository", same)
 	c := curl.NewCurlP81()
 	c.Absorb(buf)
 	d, _ := c.Squeeze(consts.HashTrinarySize)
@@ -139,4 +151,101 @@ func verifZerosBank(n int) {
 	for _, t := range []float64{0, -1, 1e-300, 0.01, 1 / (4 * float64(n)), math.MaxFloat64, math.Inf(1), math.NaN()} {
 		check(t)
 	}
+}
+
+// ---- the worker loop over the contract of the batched Curl dependency
+
+var (
+	verifBatches    int
+	verifMaxBatches int
+	verifDonePtr    *uint32
+)
+
+// replaces sync/atomic.AddUint64 in the symbolic run: counts hashed batches and raises the
+// worker's done flag after verifMaxBatches (bounds the mining loop)
+func verifStubAddUint64(p *uint64, d uint64) uint64 {
+	*p += d
+	verifBatches++
+	if verifBatches >= verifMaxBatches && verifDonePtr != nil {
+		*verifDonePtr = 1
+	}
+	return *p
+}
+
+// VerifC11Worker: for every digest and every start nonce (aligned or not), a nonce returned by the
+// worker within the first `batches` batches has at least `target` trailing zero trits (so that, with
+// requiredTrailingZeros and Score, the returned nonce meets the target score); a second call with
+// another digest is independent of the first; the done flag ends the loop with ErrDone.
+//
+//verif:run quick target=1 batches=1
+//verif:run thorough target=2 batches=1
+//verif:run thorough target=1,3 batches=2
+//verif:replace sync/atomic.AddUint64 verifStubAddUint64
+//verif:timeout 300
+func VerifC11Worker(target, batches int) {
+	w := New(1)
+	var digests [2][]byte
+	var starts [2]uint64
+	for round := 0; round < 2; round++ {
+		digests[round] = verifBytes("digest", 32)
+		starts[round] = verifU64("start")
+	}
+	// The sponge is uninterpreted in the symbolic run, so a counterexample fixes the digests and start
+	// nonces but not the real hash values: the native replay walks a few neighbouring digests of the
+	// reported ones (same start nonces) until the real hash exhibits the reported mismatch.
+	tries := 1
+	if !verifSymbolic() {
+		tries = 32
+	}
+	for k := 0; k < tries; k++ {
+		for round := 0; round < 2; round++ {
+			digest := append([]byte{}, digests[round]...)
+			digest[31] ^= byte(k)
+			digest[30] ^= byte(round * k)
+			start := starts[round]
+			var done uint32
+			var counter uint64
+			verifBatches, verifMaxBatches, verifDonePtr = 0, batches, &done
+			if !verifSymbolic() {
+				verifDonePtr = nil // native replay: mine until found
+			}
+			nonce, err := w.worker(digest, start, uint(target), &done, &counter)
+			if err != nil {
+				verifAssert("worker.done", err == ErrDone)
+				continue
+			}
+			verifReach("found")
+			if !verifSymbolic() {
+				verifAssert("worker.nonce.zeros", trailingZeros(digest, nonce) >= target)
+				continue
+			}
+			// lane by lane (the sponge is opaque: only identical buffers have related outputs)
+			hit := false
+			for j := 0; j < 64*batches; j++ {
+				if nonce == start+uint64(j) {
+					hit = true
+					verifAssert("worker.nonce.zeros", verifTailZero(digest, start+uint64(j), target))
+				}
+			}
+			verifAssert("worker.nonce.range", hit)
+		}
+	}
+}
+
+// verifTailZero: the hash of the block for (digest, nonce), built exactly as trailingZeros builds it,
+// ends in `target` zero trits (no data-dependent loop).
+func verifTailZero(powDigest []byte, nonce uint64, target int) bool {
+	buf := make(trinary.Trits, consts.HashTrinarySize)
+	n := b1t6.Encode(buf, powDigest)
+	encodeNonce(buf[n:], nonce)
+	c := curl.NewCurlP81()
+	c.Absorb(buf)
+	d, _ := c.Squeeze(consts.HashTrinarySize)
+	ok := true
+	for i := consts.HashTrinarySize - target; i < consts.HashTrinarySize; i++ {
+		if d[i] != 0 {
+			ok = false
+		}
+	}
+	return ok
 }
